@@ -146,7 +146,7 @@ func OInject(w *World, keys []int) error {
 				what := ""
 				if c.IsMap {
 					var m *atree.OrderedMap
-					m, err = atree.NewMapWithRootID(st, c.SID, w.digesterBuilder())
+					m, err = atree.NewMapWithRootID(st, c.SID, w.builderFor(c))
 					what = fmt.Sprintf("open map c%d", c.Serial)
 					if err == nil && li < nLook {
 						_, err = m.Get(tu.CompareValue, tu.GetHashInput, ToAtree(w.KeyOf(keys[li])))
